@@ -186,6 +186,10 @@ def main():
         tree = ast.parse(src)
         for k, (op, line, fn, desc, idx, arg) in enumerate(enumerate_mutants(tree, ops)):
             jobs.append((f'{rel}:{line}:{op}:{k}', rel, op, line, fn, desc, idx, arg))
+    retest = opt('--retest', '')
+    if retest:
+        want = {json.loads(l)['id'] for l in open(retest) if json.loads(l).get('verdict') in ('SILENT', 'undecided')}
+        jobs = [j for j in jobs if j[0] in want]
     if limit:
         import random
         random.Random(1).shuffle(jobs)
